@@ -81,10 +81,18 @@ type Server struct {
 	OnCloseConnFunc func(ctx context.Context, remoteAddr net.Addr, isServerShutdown bool)
 }
 
+const (
+	connIdle     int32 = 0 // connection is waiting for data, can be closed by Shutdown
+	connHandling int32 = 1 // received data is being handled, Shutdown waits for the response to be sent
+	connClosed   int32 = 2 // connection was closed by Shutdown or its handling goroutine has ended
+)
+
 type connection struct {
-	conn           net.Conn
-	isBeingHandled atomic.Bool
-	assembler      PacketAssembler
+	conn net.Conn
+	// state is one of connIdle, connHandling, connClosed. Leaving connIdle is done with compare-and-swap so
+	// Shutdown can not close connection for which handling has just started
+	state     atomic.Int32
+	assembler PacketAssembler
 
 	writeTimeout time.Duration
 	readTimeout  time.Duration
@@ -164,12 +172,11 @@ func (s *Server) serve(ctx context.Context, listener net.Listener, handler Modbu
 
 		cCtx := context.WithValue(ctx, ContextRemoteAddr{}, netConn.RemoteAddr())
 		c := &connection{
-			conn:           netConn,
-			isBeingHandled: atomic.Bool{},
-			assembler:      s.AssemblerCreatorFunc(handler),
-			writeTimeout:   s.WriteTimeout,
-			readTimeout:    s.ReadTimeout,
-			onErrorFunc:    onErrorFunc,
+			conn:         netConn,
+			assembler:    s.AssemblerCreatorFunc(handler),
+			writeTimeout: s.WriteTimeout,
+			readTimeout:  s.ReadTimeout,
+			onErrorFunc:  onErrorFunc,
 		}
 		s.trackConn(c, true)
 		go func(ctx context.Context, conn *connection) {
@@ -225,6 +232,7 @@ func (s *Server) trackConn(c *connection, isAdd bool) {
 func (c *connection) handle(ctx context.Context) {
 	cCtx, cCancel := context.WithCancel(ctx)
 	defer cCancel()
+	defer c.state.Store(connClosed)
 
 	rTimeout := readTimeout
 	if c.readTimeout > 0 {
@@ -266,7 +274,9 @@ func (c *connection) handle(ctx context.Context) {
 			continue // nothing read and not idle yet
 		}
 
-		c.isBeingHandled.Store(true)
+		if !c.state.CompareAndSwap(connIdle, connHandling) {
+			return // Shutdown is closing this connection
+		}
 		toSend, closeConn := c.assembler.ReceiveRead(cCtx, received[0:n], n)
 		if toSend != nil {
 			_ = conn.SetWriteDeadline(time.Now().Add(wTimeout))
@@ -275,7 +285,7 @@ func (c *connection) handle(ctx context.Context) {
 				return // when write fails to client we close connection
 			}
 		}
-		c.isBeingHandled.Store(false)
+		c.state.Store(connIdle)
 		if closeConn {
 			return
 		}
@@ -304,7 +314,7 @@ func (s *Server) Shutdown(ctx context.Context) error {
 	for {
 		allIdle := true
 		for c := range s.activeConnections {
-			if c.isBeingHandled.Load() {
+			if !c.state.CompareAndSwap(connIdle, connClosed) && c.state.Load() == connHandling {
 				allIdle = false
 				continue
 			}
